@@ -12,6 +12,7 @@ mod lin;
 mod model;
 mod sched;
 mod seq;
+mod stmt;
 
 use backend::{Fixtures, Mode, Sq, current_thread_rt};
 use model::{Table, VInfo, ops_from_json};
@@ -66,6 +67,7 @@ fn replay(tbl: &Table, case: &Value) -> i32 {
             !viols.is_empty()
         }
         "conc" => conc::replay_conc(tbl, case),
+        "stmt" => stmt::replay_stmt(&Table::new_sqlite_stmt(), case),
         _ => machinery_error("replay: unknown case kind"),
     };
     if still { 1 } else { 0 }
@@ -243,6 +245,13 @@ fn main() {
         "[part 3: sqlite op-granular merges] {} harnesses, {} merged executions (2 clock modes), {:.1}s, violating steps={}",
         mr.harnesses, mr.merges, mr.wall_s, mr.stats.violating_steps
     );
+    // ---- Part 3b: SQLite at statement granularity ---------------------------------------------
+    let tbl_sq = Table::new_sqlite_stmt();
+    let sr = stmt::run_sqlite_stmt(&tbl_sq, if on("stmt") { &hs } else { &[] });
+    println!(
+        "[part 3b: sqlite statement-granular schedules] {} harnesses, {} schedules, {} statement steps, {} distinct histories, longest schedule {} steps, {} harnesses with a multi-statement operation, {:.1}s, violations={}",
+        sr.harnesses, sr.schedules, sr.steps, sr.distinct_histories, sr.max_steps_in_a_schedule, sr.harnesses_with_a_multi_statement_op, sr.wall_s, sr.violations.len()
+    );
     let smoke = conc::sqlite_smoke(&tbl, if on("smoke") { &hs } else { &[] }, if thorough { 3000 } else { 300 });
     println!("[part 3: sqlite free-running smoke — SAMPLED, not part of the verdict] {smoke}");
 
@@ -266,14 +275,18 @@ fn main() {
         per_key.insert(v.key.clone(), json!(1));
         rep.violation(&v.key, &v.what, case.clone());
     }
+    for (v, case) in &sr.violations {
+        per_key.insert(v.key.clone(), json!(1));
+        rep.violation(&v.key, &v.what, case.clone());
+    }
 
     let mut samples = seq_samples;
     samples.extend(cr.samples.iter().cloned());
     if samples.is_empty() {
         samples.push(json!({"note": "no sample collected"}));
     }
-    let states = seq_histories + mr.merges + cr.schedules;
-    let transitions = seq_ops + mr.op_execs + cr.steps;
+    let states = seq_histories + mr.merges + cr.schedules + sr.schedules;
+    let transitions = seq_ops + mr.op_execs + cr.steps + sr.steps;
     // exhaustive = every target depth of the tier was completed (no time cap hit anywhere)
     let caps_hit = depth_log.iter().any(|e| e.get("completed").and_then(|c| c.as_bool()) == Some(false));
     let exhaustive = mem.completed && past.completed && gap.completed && only.is_none() && !caps_hit;
@@ -294,7 +307,10 @@ fn main() {
              Part 2: real InMemorySessionStore under a deterministic single-threaded executor, hook H3 yields before every lock acquisition; ALL schedules (unbounded DFS with replay from scratch, \
              preceded by preemption-bounded passes 0,1,2 as ordering heuristic) of {} harnesses (every unordered pair of the 7 op kinds in 2-4 instantiations on colliding ids || observer [load x; load y], 6 initial contents{}; plus 3 hand-written 3-task harnesses); \
              oracle: brute-force linearizability of the call/return history + final loads against the same reference model, deadlock = violation. distinct_nontrivial adds the number of distinct call/return histories. \
-             Part 3: every merge of the tasks' op sequences of the same harnesses executed sequentially on SQLite in both clock modes (each SqliteSessionStore op is exactly one SQL statement).",
+             Part 3: every merge of the tasks' op sequences of the same harnesses executed sequentially on SQLite in both clock modes (each SqliteSessionStore op is exactly one SQL statement). \
+             Part 3b: the same harnesses on the real SqliteSessionStore with a pool of 4 connections to one shared in-memory database, every task parked at a harness-owned turnstile each time it takes a connection \
+             (sqlx `before_acquire`: once per statement executed on the pool, once per transaction), exactly one task running between two decisions; ALL statement schedules by DFS with replay; oracle: \
+             linearizability of the call/return history + final loads against the same reference model, in which `create` on a live id may also return Ok without effect (the recorded finding of parts 1/3).",
             fx.states_json(),
             mem_j["depth"], past_j["depth"], gap_j["depth"],
             cr.harnesses,
@@ -307,6 +323,9 @@ fn main() {
         "part1_sqlite_gap": gap_j,
         "part2_in_memory_schedules": cr.to_json(),
         "part2_executor_selftest": {"schedules": st.schedules, "deadlocks_detected": st.deadlocks, "completed": st.completed, "runs_with_blocked_poll": st.runs_with_blocked_polls, "runs_blocked_then_woken_by_unlock": st.woken_after_block},
+        "part3b_sqlite_statement_schedules": {"harnesses": sr.harnesses, "schedules": sr.schedules, "statement_steps": sr.steps, "distinct_histories": sr.distinct_histories,
+            "longest_schedule_steps": sr.max_steps_in_a_schedule, "harnesses_with_a_multi_statement_operation": sr.harnesses_with_a_multi_statement_op,
+            "turnstile_passages": sr.gate_passages, "wall_s": sr.wall_s},
         "part3_sqlite_merges": {"harnesses": mr.harnesses, "merged_executions": mr.merges, "op_executions": mr.op_execs, "sql_statements": mr.stats.stmts,
                                   "violating_steps": mr.stats.violating_steps, "outcome_histogram": mr.stats.hist_json(), "same_second_guard_retries": mr.stats.guard_retries, "wall_s": mr.wall_s},
         "part3_sqlite_smoke_SAMPLED_not_part_of_verdict": smoke,
